@@ -20,7 +20,7 @@ from . import kit
 
 TIERS = {
     # runs: upper bound on simulated runs; wall: stop submitting new work after this many seconds
-    "quick": {"wall": 55.0},
+    "quick": {"wall": 40.0},
     "thorough": {"wall": 1500.0},
 }
 
